@@ -86,6 +86,7 @@ PROPS = {
                 "distinct = distinct configurations",
     },
     "C13": {
+        "needs_binary": True,
         "lean": ["OxiModel.Props.C13"],
         "streams": [{"name": "corr-deadline", "quick": 120, "thorough": 1500}],
         "oracles": [],
